@@ -343,6 +343,16 @@ func handleViolation(exe string, sc *scenario, tier string, seed, index uint64, 
 	for i := 1; flaky != "" && i < replayTries && final.Infra == "" && classOf(sc.Prop, final) != class; i++ {
 		final = replayOnce(exe, path, known)
 	}
+	if fc := classOf(sc.Prop, final); final.Infra == "" && fc != class && fc != "" && (strings.HasSuffix(fc, "/data-race") || strings.HasSuffix(class, "/data-race")) {
+		// the same defect seen through the other monitor: whether the race detector speaks first
+		// (killing the process) or the oracle does is not decided by the schedule alone
+		fmt.Printf("note: the minimised replay shows the violation as %s (first seen as %s)\n", fc, class)
+		class = fc
+		fillReplay(&rf, sc.Prop, final)
+		rf.Flaky = fmt.Sprintf("the violation shows either as a data-race report or as a failed oracle clause, depending on which monitor fires first (the race detector's reports are not a pure function of the schedule); replay repeats the execution up to %d times", replayTries)
+		b, _ := json.MarshalIndent(rf, "", " ")
+		os.WriteFile(path, append(b, '\n'), 0o644)
+	}
 	if final.Infra != "" || classOf(sc.Prop, final) != class {
 		fmt.Fprintf(os.Stderr, "INFRASTRUCTURE ERROR: minimised replay file %s does not reproduce class %s (got %q %s)\n", path, class, classOf(sc.Prop, final), final.Infra)
 		return "", exitInfra
